@@ -14,9 +14,9 @@ META = {
                         "any ring position, 0..depth messages already held (so the queue can be full while claims are in flight), symbolic payloads, one spurious "
                         "weak-CAS failure per handler",
                "thorough": "additionally: receiver as the high-priority handler; nesting depth 3 at queue depth 3; and the IR step machines (vt/ir2c.py, one shared "
-                           "access per step, symbolic schedule) for 2 senders + receiver at depth 1 under the interrupt discipline and under FREE preemption"},
-    "outside": ["free preemption beyond 2 senders + 1 receiver at depth 1 (the step-machine query needs > 10 GB beyond that; it found the uchar defect at 2 senders "
-                "depth 1 under the interrupt discipline in 38 min before the fix)", "more than 3 senders, depth > 3, more than one message per sender",
+                           "access per step, symbolic schedule) for 2 senders + receiver at depth 1 under the interrupt discipline"},
+    "outside": ["FREE preemption (threads on a multiprocessor): the step-machine query for 2 senders + receiver at depth 1 exceeds 10 GB and is not registered; the interrupt "
+                "discipline is decided both at source level and on the IR step machines (which found the uchar defect at 2 senders, depth 1, in 38 min before the fix)", "more than 3 senders, depth > 3, more than one message per sender",
                 "releases out of receive order (the API requires in-order release)"],
     "assumptions": ["shim <stdatomic.h>: sequentially consistent atomics on one core, an interrupt may be taken immediately before each atomic operation; plain accesses "
                     "between two atomics of the same context commute with the handlers (which touch the queue only through atomics and their own claimed buffer)",
@@ -25,11 +25,11 @@ META = {
 }
 
 
-def q(name, disc, ns, nr, dmax, role="prove", mutate=None, opt="-O1", timeout=3600, extra=None, backend="kissat"):
+def q(name, disc, ns, nr, dmax, role="prove", mutate=None, opt="-O1", timeout=3600, extra=None, backend="kissat", unwind=None):
     d = {"DISC": disc, "NS": ns, "NR": nr, "DMAX": dmax}
     d.update(extra or {})
     k = ns * 8 + nr * 7 + 2
-    return Query(name, "c04.c", "h_mq", units=["librfn/messageq.c"], defines=d, unwind=max(ns, dmax, 3) + 3, unwindset="h_mq.5:%d,h_mq.6:%d" % (k + 1, k + 1),
+    return Query(name, "c04.c", "h_mq", units=["librfn/messageq.c"], defines=d, unwind=unwind or max(ns, dmax, 3) + 3, unwindset="h_mq.5:%d,h_mq.6:%d" % (k + 1, k + 1),
                  gen=GEN[opt], backend=backend, timeout=timeout, mem_gb=12, role=role, mutate=mutate, object_bits=12,
                  tolerate=[(r"arithmetic overflow on signed shl", "1 << slot in messageq (signed-shift class, see C10)")])
 
@@ -53,5 +53,4 @@ def queries(tier, kf):
         qs.append(irq("c04-irq-recv-high-nest2", 3, 2, 2, extra={"RECV_IS_IRQ": None}, timeout=3600))
         qs.append(irq("c04-irq-senders-nest3-d3", 3, 3, 3, timeout=7200))
         qs.append(q("c04-machine-irq-2s-d1", 1, 2, 1, 1, extra={"DEPTH": 1}, backend="minisat", timeout=7200))
-        qs.append(q("c04-machine-free-2s-d1", 0, 2, 1, 1, extra={"DEPTH": 1}, backend="minisat", timeout=10800))
     return qs
